@@ -31,6 +31,8 @@ def run(rep, work, rng, tier):
             cases.append(('v_' + os.path.basename(p), ['loadx 0 ' + name, 'snap 0']))
     (c, _), (m, _), nd = common.correspondence(rep, work, cases, label='loaded object (full dump)', shared=shared)
     bad = 0; comps = {}; loaded = 0
+    # C02_any_layout: on which files does the layout theorem apply (certificate computed and checked by the extracted Coq functions)
+    certs = common.layout_certificates(work, [lines[0].split(' ')[2] for cid, lines in cases], shared); ncert = 0; ncert_ok = 0
     for cid, lines in cases:
         cl, cs = c.get(cid, ([], 'missing'))
         ops = harness.split_ops(lines, cl)
@@ -46,7 +48,9 @@ def run(rep, work, rng, tier):
         loaded += 1
         snap = harness.Snap(ops[1][1])
         diffs = filegen.diff_dump(snap, exp[cid])
+        proved = certs.get(lines[0].split(' ')[2], (False, ''))[0]; ncert += proved; ncert_ok += (proved and not diffs)
         for d in diffs[:1]:
+            if proved: d += ' (the layout theorem applies to this file: the model provably loads exactly its parts)'
             comp = d.split(' ')[0].split('.')[0] + '.' + d.split(' ')[0].split('.')[-1] if '.' in d.split(' ')[0] else d.split(' ')[0]
             comps[comp] = comps.get(comp, 0) + 1
             bad += 1
@@ -58,4 +62,5 @@ def run(rep, work, rng, tier):
                               signature='decode:' + comp, extra=dict(file=keep))
     rep.coverage.update(dict(evaluations=len(cases), distinct_nontrivial=loaded,
         rule='files written by the independent spec-level encoder (lib/c3dspec.py) over layout variants (leading zeros, parameter block address, zeroed prologue, termination by zero offset or zero length, extra padding blocks, NUL or space padded strings) x contents (group ids sparse and in any order, parameters before their group, empty ANALOG group, labels fewer / more than points, byte/int/float/string parameters of 0..7 dimensions, events, first-frame offsets, every float class in point/residual/analog positions) plus the vendor files; the dump of the loaded object is compared with the model (correspondence) and with the content the file was encoded from; non-trivial = loaded and compared',
-        samples=[cases[0][1]], layout_variants=layouts, shapes=shapes, failing_components=comps, disagreements=nd, oracle_failures=bad))
+        samples=[cases[0][1]], layout_variants=layouts, shapes=shapes, failing_components=comps, disagreements=nd, oracle_failures=bad,
+        theorem_C02_any_layout=dict(files=len(certs), hypotheses_hold=sum(1 for v in certs.values() if v[0]), of_the_generated_files=ncert, of_which_loaded_as_encoded_by_the_implementation=ncert_ok, excluded_by=common.failing_cert_hypotheses(certs))))
